@@ -8,7 +8,8 @@ import common
 def run():
     libs = os.pathsep.join([common.VERIF + "/spec", common.VERIF + "/spec/mc", common.VERIF + "/spec/trace"])
     bad = []
-    for f in sorted(glob.glob(common.VERIF + "/spec/*.tla") + glob.glob(common.VERIF + "/spec/mc/*.tla") + glob.glob(common.VERIF + "/spec/trace/*.tla")):
+    # (TimerInd.tla extends Apalache's own module: it is parsed and type-checked by apalache-mc, see cfdp_family.timer_lemma)
+    for f in sorted(x for x in glob.glob(common.VERIF + "/spec/*.tla") + glob.glob(common.VERIF + "/spec/mc/*.tla") + glob.glob(common.VERIF + "/spec/trace/*.tla") if not x.endswith("/TimerInd.tla")):
         p = subprocess.run(["java", "-cp", "/opt/veriftools/tla/tla2tools.jar:/opt/veriftools/tla/CommunityModules-deps.jar",
                             "-DTLA-Library=" + libs, "tla2sany.SANY", f], cwd=os.path.dirname(f),
                            stdout=subprocess.PIPE, stderr=subprocess.STDOUT, text=True)
